@@ -32,11 +32,19 @@ class CurFlow(Flow):
     def __init__(self, fn, inline_props=None, **kw):
         self.inline_props = inline_props or {}
         self.atom_vars = {}
+        a = fn.args
+        self._params = set(x.arg for x in a.posonlyargs + a.args +
+                           a.kwonlyargs)
         super(CurFlow, self).__init__(fn, **kw)
 
     def symvar(self, var, node, depth=0):
         if var in self.inline_props and depth < 30:
             return self.sym(self.inline_props[var], node, depth + 1)
+        if self.consts is not None and var.split(".")[0] not in self.allvars \
+                and var.split(".")[0] not in self._params:
+            c = self.consts(var)
+            if isinstance(c, int) and not isinstance(c, bool):
+                return Poly.const(c)
         self.atom_vars.setdefault(var, set()).add(var)
         return Poly.atom(var)
 
@@ -176,11 +184,11 @@ class Interp(object):
     def __init__(self, fn, entry_cons=(), candidates=(), inline_props=None,
                  pure_self_methods=(), pure_calls=(), integer=True,
                  nonneg=(), assume_asserts=True, ghost_params=True,
-                 call_effects=None, max_rounds=12):
+                 call_effects=None, max_rounds=12, consts=None):
         self.fn = fn
         self.flow = CurFlow(fn, inline_props=inline_props,
                             pure_self_methods=pure_self_methods,
-                            pure_calls=pure_calls)
+                            pure_calls=pure_calls, consts=consts)
         self.cfg = self.flow.cfg
         self.integer = integer
         self.nonneg = set(nonneg)
